@@ -150,6 +150,12 @@ def feasible_path(cfg, start, goal, stop=None, edge_ok=normal, first_edges=None,
             continue
         assigned = _assigned_names(node)
         st = {kk: v for kk, v in state.items() if kk[0] not in assigned}
+        # `flag = True` / `flag = False` / `n = 3`: the fact the assignment establishes
+        a_ = node.stmt if node.kind == 'stmt' else None
+        if isinstance(a_, ast.Assign) and len(a_.targets) == 1 and isinstance(a_.targets[0], ast.Name) and isinstance(a_.value, ast.Constant) \
+                and isinstance(a_.value.value, (bool, int)) :
+            v_ = int(a_.value.value)
+            st[(a_.targets[0].id, 0)] = frozenset(['eq'] if v_ == 0 else (['gt'] if v_ > 0 else ['lt']))
         for d, kk in node.succ:
             if edge_ok is not None and not edge_ok(node, d, kk):
                 continue
